@@ -185,6 +185,12 @@ func (c *HostClient) ConnectionCount() (count int) {
 }
 
 func (c *HostClient) WantConnectionCount() (count int) {
+	// the queue is created with the first waiter and changed under the pool lock
+	c.connsLock.Lock()
+	defer c.connsLock.Unlock()
+	if c.connsWait == nil {
+		return 0
+	}
 	return c.connsWait.len()
 }
 
